@@ -23,6 +23,7 @@ struct Scenario
 };
 
 void registerScenario(const Scenario& s);
+uint64_t genRunIndex(); // index of the run whose plan is being generated (for scenarios that enumerate a finite space in order)
 const std::vector<Scenario>& scenarios();
 
 struct ScenarioRegistrar
